@@ -135,7 +135,8 @@ pub fn main(tier: Tier) -> ! {
     run.bound_done(format!("all strings of length <= {maxlen} over {} symbols, as text and as byte strings, x {} laws", SYMS.len(), TEXT_LAWS.len() + BYTE_LAWS.len()));
 
     // regex positions
-    let subj_alpha: &[&[u8]] = &[b"a", b"b", "é".as_bytes(), "😀".as_bytes(), b"\n"];
+    // incl. a stray continuation byte and an invalid byte (each counts as one character everywhere)
+    let subj_alpha: &[&[u8]] = &[b"a", b"b", "é".as_bytes(), "😀".as_bytes(), b"\n", b"\x80", b"\xff"];
     let subjects = strings(subj_alpha, if run.quick() { 3 } else { 4 });
     let res = regexes();
     let flags: Vec<String> = {
